@@ -259,7 +259,7 @@ def judge(R):
             continue
         made = sum(1 for c in calls[:ev['n0']] if _key(c[0]) == i)
         why = []
-        if ev['nstep'] - 1 >= G: why.append('generations %d >= limit %d' % (ev['nstep'] - 1, G))
+        if k - 1 >= G: why.append('generations %d >= limit %d' % (k - 1, G))     # k-1 iterations really completed after the initial one
         if made >= EV: why.append('evaluations %d >= limit %d' % (made, EV))
         if ev['term']: why.append('its termination condition already holds')
         if why:
@@ -383,7 +383,7 @@ def shard_scripted(item):
         R = lab.execute(cfg, ch)
         return R, judge(R)
     info = {}
-    for ch, (R, viol) in tree.explore(run, bound=bound, max_executions=60000, info=info):
+    for ch, (R, viol) in tree.explore(run, bound=bound, max_executions=5000, info=info):
         tally_run(T, R, viol, {'cfg': cfg, 'choices': ch.choices})
         T.count('transitions', len(ch.trace))
         outcomes.add(observe(R))
@@ -839,7 +839,7 @@ def run(ctx):
     ctx.pmap(_dispatch, items)
     ctx.tally.samples = curated_samples(ctx)
     if ctx.tally.n.get('scripted_capped'):
-        ctx.cap('%d scripted configurations stopped at 60000 executions' % ctx.tally.n['scripted_capped'])
+        ctx.cap('%d scripted configurations stopped at 5000 executions' % ctx.tally.n['scripted_capped'])
 
 
 def curated_samples(ctx):
